@@ -55,7 +55,11 @@ Pool == <<
 >>
 
 Idx == 1..PoolSize
-Subsets == { S \in SUBSET Idx : Cardinality(S) >= 1 /\ Cardinality(S) <= MaxDefs }
+\* the subsets of Idx with 1..MaxDefs elements, built by size (SUBSET Idx would enumerate 2^PoolSize sets)
+RECURSIVE OfSize(_)
+OfSize(n) == IF n = 1 THEN { {i} : i \in Idx }
+             ELSE { S \cup {i} : S \in OfSize(n - 1), i \in Idx } \ OfSize(n - 1)
+Subsets == UNION { { S \in OfSize(n) : Cardinality(S) = n } : n \in 1..MaxDefs }
 CaseOf(S) == [defs |-> [k \in 1..Cardinality(S) |-> Pool[SetToSeq(S)[k]]]]
 
 ASSUME /\ PoolSize <= Len(Pool)
